@@ -16,6 +16,7 @@ from modcorpus import run_mod
 from modbuild import build_modules
 from modgen import Gen, model_str, val_str
 import c08_util as U
+import c08_wide as W
 
 MODDRV_EXTRA = os.path.join(HARNESS, "moddrv_c08.inc")
 BUILTIN_NAMES = ["INTEGER", "OCTET STRING", "BOOLEAN", "NULL", "SEQUENCE", "SEQUENCE OF", "SET OF", "CHOICE", "SET", "REAL",
@@ -472,7 +473,7 @@ def oracle_layer(run, xm, cases, name, opts, clamp_need):
         replay = {"module": xm["text"] if len(xm["text"]) < 5000 else "(module %s)" % xm["name"], "type_text": c.get("text", ""), "asn1c_options": " ".join(opts),
                   "type": c["tn"], "case": c["what"], "der": c["der"][:600], "violated": c["bad"]}
         if o[0] != "OK " + c["der"]:
-            run.count(name + "_skipped_transport_not_identity")
+            run.count(name + "_skipped_transport_not_identity:" + c["label"].split(":")[0])
             if c.get("must_transport"):
                 run.violation("harness:transport", dict(replay, what="a value the harness relies on does not survive DER -> structure -> DER", c=o[0][:300]), no_input=True)
             continue
@@ -523,6 +524,7 @@ def main(tier):
         xm = U.string_module("MX0")
         cases = {m["name"]: module_cases(m, rng, tier) for m in [hand] + bmods + gmods}
         scases = string_cases(rng)
+        wm, wcases = W.wide_module(rng)
         clamp_need = []
         nmods = 0
         flagsets = FLAGSETS_QUICK if tier == "quick" else FLAGSETS_THOROUGH
@@ -533,7 +535,7 @@ def main(tier):
             sel = {"all": [hand] + bmods + gmods, "main": [hand] + bmods + gmods[:2], "boundary": bmods,
                    "lite": [U.lite_module(m) for m in bmods]}[which]
             sel = [dict(m) for m in sel]
-            xs = [dict(xm)] if which in ("all", "main") else []
+            xs = [dict(xm), dict(wm)] if which in ("all", "main") else []
             tick("build " + tag)
             build_modules(sel + xs, tag="c08_" + tag, opts=opts, moddrv_extra=MODDRV_EXTRA)
             tick("built " + tag)
@@ -542,7 +544,11 @@ def main(tier):
                 model_layer(run, rng, tier, model, m, cases[m["name"]], flag, clamp_need)
                 tick("ran %s %s" % (tag, m["name"]))
             for x in xs:
-                oracle_layer(run, x, scases, "C08-strings", opts, clamp_need)
+                if x["name"] == xm["name"]:
+                    oracle_layer(run, x, scases, "C08-strings", opts, clamp_need)
+                else:
+                    oracle_layer(run, x, wcases, "C08-wide", opts, clamp_need)
+                tick("ran %s %s" % (tag, x["name"]))
         check_clamp_model(run, model, clamp_need)
     except (BuildError, RuntimeError) as e:
         run.violation("build", {"what": str(e)[-2500:]}, no_input=True)
